@@ -3,6 +3,7 @@ package sim
 import (
 	"fmt"
 	"sort"
+	"strings"
 	"sync"
 	"testing"
 	"testing/synctest"
@@ -861,6 +862,18 @@ func probesFor(m *AlertModel, key string, t1, t2 time.Time) []time.Time {
 func GenClusterScenario(t *rapid.T, healthy bool) ClusterScenario {
 	var sc ClusterScenario
 	sc.LabelSets = genLabelSets(t)
+	if rapid.IntRange(0, 2).Draw(t, "bigEntries") == 0 {
+		// long label values make group keys, and with them the gossiped log entries, exceed the gossip
+		// packet limit (700 bytes): such entries travel over the oversized path of the real transport
+		long := strings.Repeat("x", sampled(t, "longLen", 400, 900))
+		for _, ls := range sc.LabelSets {
+			for k, v := range ls {
+				if v == "x" {
+					ls[k] = long
+				}
+			}
+		}
+	}
 	cfg, maxRI, maxGI := GenConfig(t, sc.LabelSets, GenParams{})
 	sc.Config = cfg
 	sc.N = rapid.IntRange(2, 3).Draw(t, "n")
